@@ -408,11 +408,27 @@ class ExprMixin:
             return SV(f(a.term, b.term), T.STR)
         if a.ty.kind == "list" and b.ty.kind == "list" and isinstance(op, ast.Add):
             return self.list_concat(a, b, line)
-        if a.ty.kind == "opaque" or b.ty.kind == "opaque":
+        if a.ty.kind == "opaque" or b.ty.kind == "opaque" or \
+                (a.ty.kind == "opt" and a.ty.args[0].kind == "opaque") or \
+                (b.ty.kind == "opt" and b.ty.args[0].kind == "opaque"):
             return self.opaque_binop(op, a, b, line)
         raise Unsupported(f"operator {type(op).__name__} on {a.ty}/{b.ty} (line {line})")
 
     def opaque_binop(self, op, a, b, line):
+        # datetime arithmetic: uninterpreted (deterministic) functions of the operands
+        if a.ty.kind == "opt" and a.ty.args[0].kind == "opaque":
+            a = self.coerce(a, a.ty.args[0], line)  # None in arithmetic is a TypeError: obliges `is not None`
+        if b.ty.kind == "opt" and b.ty.args[0].kind == "opaque":
+            b = self.coerce(b, b.ty.args[0], line)
+        an, bn = getattr(a.ty, "name", None), getattr(b.ty, "name", None)
+        if isinstance(op, ast.Sub) and an == "datetime" and bn == "datetime" and a.term is not None and b.term is not None:
+            f = self.w.func("datetime_sub", self.w.sort(a.ty), self.w.sort(b.ty), self.w.sort(T.Opaque("timedelta")))
+            return SV(f(a.term, b.term), T.Opaque("timedelta"))
+        if isinstance(op, (ast.Add, ast.Sub)) and an == "datetime" and bn == "timedelta" \
+                and a.term is not None and b.term is not None:
+            f = self.w.func(f"datetime_{type(op).__name__.lower()}_td", self.w.sort(a.ty), self.w.sort(b.ty),
+                            self.w.sort(a.ty))
+            return SV(f(a.term, b.term), a.ty)
         raise Unsupported(f"operator {type(op).__name__} on opaque values (line {line})")
 
     def power(self, a, b, line):
